@@ -910,7 +910,19 @@ func (rn *runner) judgeEnd(p *program, finished bool) {
 		}
 	}
 	for _, f := range m.findings {
-		c.Violation(f.key, f.text, rn.stream, rn.idx, detail())
+		d := detail()
+		// what the interpreter itself logged about its locks (ring buffer), the
+		// goroutines alive now and the thread ids used: enough to tell a failure
+		// of the mutex from a disturbed observation
+		if rn.env != nil && rn.env.Erp != nil && rn.env.Erp.MutexLog != nil {
+			l := rn.env.Erp.MutexLog.StringSlice()
+			if len(l) > 120 {
+				l = l[len(l)-120:]
+			}
+			d["interpreter_mutex_log_tail"] = l
+		}
+		d["goroutines_now"] = head(sched.FullDump(), 5000)
+		c.Violation(f.key, f.text, rn.stream, rn.idx, d)
 	}
 	for k, v := range m.stats {
 		c.Event(k, v)
